@@ -30,10 +30,12 @@
 (* min(fetch, n) rows, made of distinct input rows (tied rows are free).   *)
 (*                                                                         *)
 (* MergeCmp = "spec": the merge compares like the ORDER BY.                *)
-(* MergeCmp = "asbuilt": compare_array_values — NULL is greater than every *)
-(* value, and DESC reverses the whole comparison, so NULLS FIRST/LAST is   *)
-(* ignored by the merge (runs are still sorted correctly by flush_run):    *)
-(* TLC refutes AtDone (ExternalSort_asbuilt_cex.cfg).                      *)
+(* MergeCmp = "asbuilt": the merge comparison as it was built before /repo *)
+(* commit 8429288 (compare_array_values: NULL greater than every value,    *)
+(* DESC reverses the whole comparison, so NULLS FIRST/LAST is ignored by   *)
+(* the merge while flush_run sorts every run correctly): TLC refutes       *)
+(* AtDone (ExternalSort_asbuilt_cex.cfg) — kept as the seeded mistake that *)
+(* shows the invariant is sensitive to the merge order.                    *)
 (***************************************************************************)
 EXTENDS VerifIO, SequencesExt
 
@@ -87,7 +89,7 @@ KCmp(a, b, it) == IF a = b THEN 0
                   ELSE IF a = NULL THEN (IF it.nf = 1 THEN -1 ELSE 1)
                   ELSE IF b = NULL THEN (IF it.nf = 1 THEN 1 ELSE -1)
                   ELSE IF (a < b) = (it.desc = 0) THEN -1 ELSE 1
-\* compare_array_values + `.reverse()` for DESC, as the merge does it
+\* compare_array_values + `.reverse()` for DESC, as the merge did it before /repo 8429288
 AsBuiltKCmp(a, b, it) == LET base == IF a = b THEN 0
                                      ELSE IF a = NULL THEN 1
                                      ELSE IF b = NULL THEN -1
